@@ -82,6 +82,21 @@ func appCases(args []string) {
 			id++
 			w.Emit(appCase{ID: id, Mode: "c11", In: tr.Ints(in), Hold: 0, Display: dr[0], Record: dr[1], Chunk: []int{0, 64, 1, 4096}[k%4], Seed: rng.Int63(), Cls: "c11-files"})
 		}
+		// one output fails (the display log's filestore is full) while standard output is slow; and a standard output whose
+		// consumer stalls for several seconds on its first write
+		{
+			in := gen.Cat(gen.Frame(rng, 1005, 19, 0), gen.Frame(rng, 1006, 21, 0), gen.Junk(rng, 5, 1), gen.Frame(rng, 1005, 19, 0), gen.Frame(rng, 1230, 6, 0))
+			id++
+			w.Emit(appCase{ID: id, Mode: "c11", In: tr.Ints(in), Hold: 0, Display: true, Record: false, Chunk: 0, Seed: rng.Int63(), Cls: "c11-devfull"})
+			id++
+			w.Emit(appCase{ID: id, Mode: "c11", In: tr.Ints(in), Hold: 0, Display: true, Record: true, Chunk: 7, Seed: rng.Int63(), Cls: "c11-devfull"})
+			stall := 5500
+			if thorough {
+				stall = 12000
+			}
+			id++
+			w.Emit(appCase{ID: id, Mode: "c11", In: tr.Ints(in), Hold: stall, Display: false, Record: true, Chunk: 0, Seed: rng.Int63(), Cls: "c11-stall"})
+		}
 		for i := 0; i < n; i++ {
 			var in []byte
 			switch i % 5 {
@@ -138,6 +153,16 @@ func appCases(args []string) {
 			}
 			id++
 			w.Emit(appCase{ID: id, Mode: "c10", In: tr.Ints(big), Display: false, Record: true, Chunk: 4096, Seed: rng.Int63(), Cls: "200 kB"})
+		}
+		// a consumer of the output that stalls for several seconds on its first write while further frames follow
+		{
+			in := gen.Cat(gen.Junk(rng, 10, 1), gen.Frame(rng, 1005, 19, 0), gen.Frame(rng, 1006, 21, 0), gen.Frame(rng, 1230, 6, 0), gen.Frame(rng, 1005, 19, 0))
+			cls := "stall"
+			if thorough {
+				cls = "stall-long"
+			}
+			id++
+			w.Emit(appCase{ID: id, Mode: "c10", In: tr.Ints(in), Display: false, Record: false, Chunk: 0, Seed: rng.Int63(), Cls: cls})
 		}
 		// other data that looks like the beginning of a frame (zero length, tiny length, reserved bits, maximum length)
 		// between valid frames: nothing of it may reach the output
